@@ -12,7 +12,7 @@ func init() {
 		technique: "who-may-write on the state word, CFG ordering inside the transition (openUntil before state=Open; window reset on HalfOpen/Closed), guard dominance in admission and recording, acquire/release pairing, lockset on the window buckets",
 		explanation: "Decides: (1) the state word is stored only in transitionTo (under the breaker's mutex) and the constructor; a transition to Open stores openUntil before the state, a transition to HalfOpen or Closed resets the window; a no-op transition (already in the target state) changes nothing; because callers decide transitions outside the mutex, transitionTo validates the source inside its critical section (HalfOpen only from Open with the deadline passed, Closed only from HalfOpen); (2) admission: in the Open state a call before openUntil is rejected before anything else; in non-Closed states a call is admitted only by winning a non-blocking send on the probe semaphore whose capacity is halfOpenMaxCalls, the semaphore channel is never replaced, permits are taken only there and given back only by release through an unconditional receive (the semaphore counts exactly the probes in flight), and tryAcquire leaves Open only over the deadline-passed edge; (3) Execute: a probe slot that was acquired is always released (deferred), release happens only there, a rejected call invokes nothing, and a completed call records exactly one outcome unless the caller's context was cancelled; (4) record: the breaker opens only when total ≥ minRequests and failures/total ≥ failureRate, and closes only from HalfOpen; (5) the rolling-window buckets are accessed under their own mutex.",
 		assumptions: []string{"windowed failure-rate arithmetic over clock histories (bucket rotation)", "bursts of probes racing the HalfOpen transition beyond the semaphore bound"},
-		minObl:     20,
+		minObl:     28,
 		run:        runC47,
 	})
 }
